@@ -47,7 +47,7 @@ def _run(prog, pid):
                 continue
             found += 1
             bad = [c.rstrip("<") for c in CHANGING if c in ty]
-            skips = _skips(f, lp, calls)
+            skips = _skips(f, lp, calls, excuse=_already_done_test(f, lp, callee))
             ok = not bad and not skips
             key = "%s/%s%s" % (short, callee, "#%d" % (found - 1) if found > 1 else "")
             res.inst(key, where="%s:%s" % (f.file, f.line_of(lp.h)), iterator=ty[:100], ok=ok)
@@ -69,7 +69,54 @@ def _run(prog, pid):
     return res
 
 
-def _skips(f, lp, calls):
+def _already_done_test(f, lp, callee):
+    """blocks of the loop body that test `item == X` where X is the very argument that a call of `callee` *dominating the
+    loop* received in the same position as the loop item: the element was acted on before the loop, skipping it in the
+    loop leaves every element acted on exactly once. Returns the set of switch blocks whose 'equal' edge may be taken."""
+    from kq.core import Resolver, callee_written, is_place, proj
+    R = Resolver(f)
+    inner = [f.term(b) for b in lp.body if f.term(b)["k"] == "call" and (callee_name(f.term(b)) or "").split("::")[-1] == callee]
+    outer = [f.term(b) for b in f.reachable() if b not in lp.body and f.term(b)["k"] == "call"
+             and (callee_name(f.term(b)) or "").split("::")[-1] == callee and f.dominates(b, lp.h)]
+    if not inner or not outer:
+        return {}
+
+    def root_local(op):
+        while is_place(op) and not proj(op):
+            d = f.single_def(op["l"])
+            if d and d[2] == "assign" and d[3]["k"] in ("use", "ref") and is_place(d[3].get("a") or d[3].get("p")):
+                nxt = d[3].get("a") or d[3].get("p")
+                if [e for e in proj(nxt) if e != "*"]:
+                    break
+                op = {"l": nxt["l"]}
+                continue
+            break
+        return op.get("l") if is_place(op) else None
+    out = {}
+    for b in lp.body:
+        t = f.term(b)
+        if t["k"] != "call" or (callee_written(t) or "") not in ("core::cmp::PartialEq::eq", "core::cmp::PartialEq::ne") or len(t["args"]) != 2:
+            continue
+        sides = {root_local(a) for a in t["args"]}
+        for it in inner:
+            for ot in outer:
+                for i in range(1, min(len(it["args"]), len(ot["args"]))):
+                    li, lo = root_local(it["args"][i]), root_local(ot["args"][i])
+                    if li is not None and lo is not None and li != lo and sides == {li, lo}:
+                        nxt = t.get("t")
+                        if nxt is not None and f.term(nxt)["k"] == "switch":
+                            sw = f.term(nxt)
+                            zero = [tb for v_, tb in sw["ts"] if v_ == 0]
+                            is_eq = (callee_written(t) or "").endswith("::eq")
+                            # the successor taken when item == X
+                            same = sw["o"] if is_eq else (zero[0] if zero else None)
+                            if same is not None:
+                                out[nxt] = same
+    return out
+
+
+def _skips(f, lp, calls, excuse=None):
+    excuse = excuse or {}
     if not calls:
         return True
     seen, st = set(), [s for s in f.succs(lp.h) if s in lp.body]
@@ -79,6 +126,8 @@ def _skips(f, lp, calls):
             continue
         seen.add(b)
         for s in f.succs(b):
+            if b in excuse and s == excuse[b]:
+                continue          # "this element was handled before the loop": not a skipped element
             if s == lp.h:
                 return True
             st.append(s)
